@@ -234,6 +234,15 @@ func (g *encGen) canary(treat, where string) string {
 	}
 	g.k++
 	c := fmt.Sprintf("cnry%04d~%s", g.k, canaryTails[g.d.next(len(canaryTails))])
+	// some plaintexts look like the filter's own output
+	switch g.d.next(12) {
+	case 0:
+		c = "encrypted:" + c
+	case 1:
+		c = "hmac-sha256:" + c
+	case 2:
+		c = "[REDACTED] " + c
+	}
 	g.exp[c] = &leafExp{treat: treat, where: where}
 	return c
 }
@@ -807,7 +816,7 @@ func runEncrypt(rc *RunCtx, prop string) {
 			default:
 				snapshot, _ = g2.payload(kind, depth)
 			}
-			ev := &el.Event{Type: "t", Payload: payload, Formatted: map[string][]byte{}}
+			ev := &el.Event{Type: "t", Payload: payload, Formatted: map[string][]byte{"pre-existing": []byte("x")}, CreatedAt: genTime(tp)}
 			firedBefore := 0
 			if fw != nil {
 				firedBefore = fw.fired
@@ -828,6 +837,20 @@ func runEncrypt(rc *RunCtx, prop string) {
 			}
 			if out != nil && err != nil {
 				rc.Failf(prop+".event-and-error", "", "Process returned both an event and an error")
+			}
+			if prop == "C10" && out != nil && out != ev {
+				// the forwarded event is a private copy: what later nodes do to it
+				// (formatting) must not show through in the event the caller holds
+				if out.Type != ev.Type || !out.CreatedAt.Equal(ev.CreatedAt) {
+					rc.Failf("C10.event-fields", "", "type / creation time of the forwarded event differ from the input")
+				}
+				out.FormattedAs("c10-probe", []byte("written-after-the-filter"))
+				if _, leaked := ev.Format("c10-probe"); leaked {
+					rc.Failf("C10.shared-format-table", "", "formatting the forwarded event changed the format table of the original event: the copy is not private")
+				}
+				if _, has := out.Format("pre-existing"); !has {
+					rc.Failf("C10.format-table-lost", "", "formatted data the event carried before the filter is missing from the forwarded event")
+				}
 			}
 			// which key material is in force for this event
 			encW := wrapping.Wrapper(cur.w)
